@@ -92,6 +92,61 @@ impl Role {
     }
 }
 
+/// The emitter's vocabulary harvested at run time from what it emits *now* (identifiers of the emitted
+/// modules for three sample grammars), split into names usable for types/variants and for fields.
+/// The hand-written pools above were read off the pinned emitter; a helper introduced later
+/// (`DEFAULT_REDUCTIONS`, a new local ...) only shows up here.
+pub fn emitted_vocabulary() -> &'static (Vec<String>, Vec<String>) {
+    static V: std::sync::OnceLock<(Vec<String>, Vec<String>)> = std::sync::OnceLock::new();
+    V.get_or_init(|| {
+        const SAMPLES: &[&str] = &[
+            "start E\nenum E { Add { lhs: E _: $Plus rhs: T } One(T) Nil }\nstruct T { _: $L e: E _: $R n: $Num }\nterminal Tok { $Plus: () $L: () $R: () $Num: u8 }\n",
+            "start S\nstruct S(A A $X _: $Y)\nenum A { P($X) Q }\nterminal K { $X: Vec<u8> $Y: () }\n",
+            "start S\nstruct S\nterminal K {}\n",
+        ];
+        let mut upper = std::collections::BTreeSet::new();
+        let mut lower = std::collections::BTreeSet::new();
+        for src in SAMPLES {
+            if let (GenOutcome::Ok(text), _) = kside::generate(src, 50_000_000) {
+                if let Ok(toks) = skim::lex(&text) {
+                    for (t, _) in toks {
+                        if let skim::Tok::Ident(id) = t {
+                            if id.len() > 40 {
+                                continue;
+                            }
+                            if legal_upper(&id) && id.starts_with(|c: char| c.is_ascii_uppercase() || c == '_') {
+                                upper.insert(id.clone());
+                            }
+                            if legal_lower(&id) && id.starts_with(|c: char| c.is_ascii_lowercase() || c == '_') {
+                                lower.insert(id);
+                            }
+                        }
+                    }
+                }
+            }
+        }
+        (upper.into_iter().collect(), lower.into_iter().collect())
+    })
+}
+
+fn pick_type_name(rng: &mut Rng) -> String {
+    let v = emitted_vocabulary();
+    if !v.0.is_empty() && rng.chance(0.3) {
+        rng.pick(&v.0).clone()
+    } else {
+        rng.pick_str(TYPE_NAME_POOL).to_string()
+    }
+}
+
+fn pick_field_name(rng: &mut Rng) -> String {
+    let v = emitted_vocabulary();
+    if !v.1.is_empty() && rng.chance(0.3) {
+        rng.pick(&v.1).clone()
+    } else {
+        rng.pick_str(FIELD_NAME_POOL).to_string()
+    }
+}
+
 /// Assign adversarial names.  `single`: put exactly this one pool name at this one role.
 pub fn adversarial_names(m: &mut Model, rng: &mut Rng, density: f64, single: Option<(Role, &str)>) -> Vec<(Role, String)> {
     let mut used_top: Vec<String> = vec![];
@@ -106,10 +161,10 @@ pub fn adversarial_names(m: &mut Model, rng: &mut Rng, density: f64, single: Opt
         }
         if rng.chance(density) {
             for _ in 0..6 {
-                let n = rng.pick_str(TYPE_NAME_POOL);
-                if legal_upper(n) && !used.iter().any(|u| u == n) {
-                    placed.push((role, n.to_string()));
-                    return n.to_string();
+                let n = pick_type_name(rng);
+                if legal_upper(&n) && !used.iter().any(|u| *u == n) {
+                    placed.push((role, n.clone()));
+                    return n;
                 }
             }
         }
@@ -151,9 +206,9 @@ pub fn adversarial_names(m: &mut Model, rng: &mut Rng, density: f64, single: Opt
                     first_variant = false;
                 } else if single.is_none() && rng.chance(density) {
                     for _ in 0..6 {
-                        let n = rng.pick_str(TYPE_NAME_POOL);
-                        if legal_upper(n) && !used.iter().any(|u| u == n) {
-                            name = n.to_string();
+                        let n = pick_type_name(rng);
+                        if legal_upper(&n) && !used.iter().any(|u| *u == n) {
+                            name = n;
                             placed.push((Role::Variant, name.clone()));
                             break;
                         }
@@ -175,9 +230,9 @@ pub fn adversarial_names(m: &mut Model, rng: &mut Rng, density: f64, single: Opt
                         first_field = false;
                     } else if single.is_none() && rng.chance(density) {
                         for _ in 0..6 {
-                            let n = rng.pick_str(FIELD_NAME_POOL);
-                            if legal_lower(n) && !used_f.iter().any(|u| u == n) {
-                                name = n.to_string();
+                            let n = pick_field_name(rng);
+                            if legal_lower(&n) && !used_f.iter().any(|u| *u == n) {
+                                name = n;
                                 placed.push((Role::Field, name.clone()));
                                 break;
                             }
@@ -482,6 +537,11 @@ pub fn c06_case(seed: u64, idx: u64) -> Option<(Model, String, String)> {
 
 impl Compile {
     fn c05(&self, w: &mut Worker, idx: u64) {
+        {
+            let v = emitted_vocabulary();
+            w.max("harvested-emitter-vocabulary:type-like-names", v.0.len() as u64);
+            w.max("harvested-emitter-vocabulary:field-like-names", v.1.len() as u64);
+        }
         let Some((m, src, lib, placed, systematic)) = c05_case(w.seed, idx) else {
             w.count("skipped:no-accepted-grammar-drawn");
             return;
